@@ -729,6 +729,47 @@ fn const_value<'tcx>(tcx: TyCtxt<'tcx>, v: ConstValue, ty: Ty<'tcx>, o: &mut Vec
             }
         }
         ConstValue::Indirect { alloc_id, offset } => {
+            // a wide reference kept in memory (e.g. `const X: &[u8] = b"..";` after unsizing): follow (ptr, len)
+            if let ty::Ref(_, inner, _) = ty.kind() {
+                let es = match inner.kind() {
+                    ty::Str => 1,
+                    ty::Slice(et) => elem_size(*et),
+                    _ => 0,
+                };
+                if es > 0 {
+                    if let Some(mir::interpret::GlobalAlloc::Memory(m)) = tcx.try_get_global_alloc(alloc_id) {
+                        let a = m.inner();
+                        let psz = tcx.data_layout.pointer_size().bytes();
+                        let off = offset.bytes();
+                        if off + 2 * psz <= a.len() as u64 {
+                            let raw = a.inspect_with_uninit_and_ptr_outside_interpreter((off as usize)..((off + 2 * psz) as usize));
+                            let mut rel = 0u64;
+                            let mut len = 0u64;
+                            for i in 0..psz as usize {
+                                rel |= (raw[i] as u64) << (8 * i);
+                                len |= (raw[psz as usize + i] as u64) << (8 * i);
+                            }
+                            let mut target = None;
+                            for (poff, prov) in a.provenance().ptrs().iter() {
+                                if poff.bytes() == off {
+                                    target = Some(prov.alloc_id());
+                                }
+                            }
+                            if let Some(tid) = target {
+                                if len * es <= 65536 {
+                                    if let Some(b) = alloc_bytes(tcx, tid, rel, len * es) {
+                                        if matches!(inner.kind(), ty::Str) {
+                                            o.push(("s", J::s(&String::from_utf8_lossy(&b))));
+                                        }
+                                        o.push(("bytes", bytes_json(&b)));
+                                        o.push(("esize", J::Num(es as i128)));
+                                    }
+                                }
+                            }
+                        }
+                    }
+                }
+            }
             if let ty::Array(et, n) = ty.kind() {
                 if let Some(n) = n.try_to_target_usize(tcx) {
                     let es = elem_size(*et);
